@@ -275,7 +275,7 @@ func fieldFault(t *sim.T, m *gtfsrt.FeedMessage) string {
 		}
 	}
 	s := func(v string) *string { return &v }
-	switch t.Choose(22) {
+	switch t.Choose(23) {
 	case 0:
 		if len(tus) == 0 {
 			return ""
@@ -380,7 +380,13 @@ func fieldFault(t *sim.T, m *gtfsrt.FeedMessage) string {
 			return ""
 		}
 		a := alerts[t.Choose(len(alerts))].Alert
-		so := grammarString(t, []string{":", "-", "7", "99999999999999999999", "a", "MTASBWY", " ", "L", "+", "0"}, 5)
+		var so string
+		if t.Chance(2, 3) {
+			// well-shaped prefix, odd priority
+			so = "MTASBWY:" + []string{"L", "G", ""}[t.Choose(3)] + ":" + []string{"-3", "-1", "-2147483649", "2147483650", "4294967297", "99999999999999999999", "0", "7", "+5", "", "x", "1e3", "-0", "40", "41", "0x10"}[t.Choose(16)]
+		} else {
+			so = grammarString(t, []string{":", "-", "7", "99999999999999999999", "a", "MTASBWY", " ", "L", "+", "0"}, 5)
+		}
 		for _, ie := range a.InformedEntity {
 			proto.SetExtension(ie, gtfsrt.E_MercuryEntitySelector, &gtfsrt.MercuryEntitySelector{SortOrder: &so})
 		}
@@ -507,6 +513,36 @@ func fieldFault(t *sim.T, m *gtfsrt.FeedMessage) string {
 	case 21:
 		m.Header = nil
 		return "header removed (required)"
+	case 22:
+		// a long trip whose stop time updates carry no stop id and no track (stops identified by sequence only)
+		if len(tus) == 0 {
+			return ""
+		}
+		tu := tus[t.Choose(len(tus))]
+		want := []int{5, 18, 40, 120, 400}[t.Choose(5)]
+		for len(tu.StopTimeUpdate) > 0 && len(tu.StopTimeUpdate) < want {
+			src := tu.StopTimeUpdate[len(tu.StopTimeUpdate)%len(tu.StopTimeUpdate)]
+			cp := proto.Clone(src).(*gtfsrt.TripUpdate_StopTimeUpdate)
+			tu.StopTimeUpdate = append(tu.StopTimeUpdate, cp)
+		}
+		for i, u := range tu.StopTimeUpdate {
+			u.StopId = nil
+			seq := uint32(i + 1)
+			u.StopSequence = &seq
+			proto.ClearExtension(u, gtfsrt.E_NyctStopTimeUpdate)
+			if u.Arrival == nil {
+				u.Arrival = &gtfsrt.TripUpdate_StopTimeEvent{}
+			}
+			if u.Departure == nil {
+				u.Departure = &gtfsrt.TripUpdate_StopTimeEvent{}
+			}
+			tm := int64(1705312800 + i*60)
+			d, un := int32(i), int32(30)
+			u.Arrival.Time, u.Arrival.Delay, u.Arrival.Uncertainty = &tm, &d, &un
+			u.Departure.Time, u.Departure.Delay, u.Departure.Uncertainty = &tm, &d, &un
+		}
+		t.Probe("fault-long-trip-without-stop-ids")
+		return fmt.Sprintf("trip with %d stop time updates, none with a stop id or track", len(tu.StopTimeUpdate))
 	}
 	return ""
 }
@@ -761,7 +797,7 @@ func c05CsvSeam(t *sim.T) *sim.Violation {
 
 func c05Journal(t *sim.T) *sim.Violation {
 	spec := DrawExtSpec(t)
-	if spec.Kind == 3 {
+	if spec.Kind == 3 && t.Chance(2, 3) {
 		spec.Kind = 2
 	}
 	n := t.Range(1, 12)
@@ -769,7 +805,7 @@ func c05Journal(t *sim.T) *sim.Violation {
 	var hashes []string
 	faults := 0
 	for i := 0; i < n; i++ {
-		m, nf := c05BuildFeed(t, true)
+		m, nf := c05BuildFeed(t, !t.Chance(1, 5))
 		faults += nf
 		b := gen.MarshalFeed(m)
 		r, err, pv, stack := parseRT(b, spec.Fresh())
